@@ -363,6 +363,9 @@ def run_pydriver(lines):
     env = dict(ENV)
     env["MINICONF_PY"] = os.path.join(REPO, "py", "miniconf-mqtt")
     env["PYDRIVER_SYNC_FAST"] = "1"
+    # always compile the client from the current source: never read or write byte-code caches in /repo
+    env["PYTHONDONTWRITEBYTECODE"] = "1"
+    env["PYTHONPYCACHEPREFIX"] = os.path.join(WORK, "no-pycache")
     data = ("\n".join(lines) + "\n").encode()
     rc, out, err, dt = sh([sys.executable, os.path.join(VERIF, "pyharness", "pydriver.py")], input_bytes=data, env=env,
                           timeout=3600)
